@@ -917,8 +917,10 @@ class MiscGenerator:
                   'unclaim_l': m.unclaim_leading_comment, 'unclaim_t': m.unclaim_trailing_comment}[op]
             ign = r.random() < 0.5
             if op.startswith('claim'):
-                return Op('claim:' + op, f'{p}.{fn.__name__}(ignore_if_already_claimed={ign})', root, '$', lambda: [],
-                          lambda: fn(ignore_if_already_claimed=ign), expect=None)
+                o = Op('claim:' + op, f'{p}.{fn.__name__}(ignore_if_already_claimed={ign})', root, '$', lambda: [],
+                       lambda: fn(ignore_if_already_claimed=ign), expect=None)
+                o.manual_claim = (m, 'leading' if op == 'claim_l' else 'trailing', ign)
+                return o
             return Op('claim:' + op, f'{p}.{fn.__name__}()', root, '$', lambda: [], fn)
         if op in ('claim_i', 'unclaim_i') and wr:
             p, w = r.choice(wr)
@@ -1003,24 +1005,34 @@ def pingpong_ops(root, r, nsteps=10):
     with_ph = [pr_ for pr_ in with_comment if pr_[1] is not None and pr_[2] is not None and placeholder_in_gap(pr_[1], pr_[2])]
     where, x, y, ws = r.choice(with_ph if with_ph and r.random() < 0.7 else (with_comment or pairs))
     owners = []
+    targets = {}
     if x is not None:
         owners.append(('above.{}_trailing_comment()', x.claim_trailing_comment, x.unclaim_trailing_comment))
+        targets['above.{}_trailing_comment()'] = (x, 'trailing', False)
     if y is not None:
         owners.append(('below.{}_leading_comment()', y.claim_leading_comment, y.unclaim_leading_comment))
+        targets['below.{}_leading_comment()'] = (y, 'leading', False)
     for i, w in enumerate(ws):
         owners.append((f'list{i}.{{}}_interleaving_comments()', w.claim_interleaving_comments, w.unclaim_interleaving_comments))
     out = []
     if len(owners) >= 2 and r.random() < 0.6:
         # round robin: every owner in turn claims the comment and lets it go again, several rounds
         cyc = r.sample(owners, r.randint(2, len(owners)))
-        for _ in range(3):
+        for rnd in range(3):
             for name, claim, unclaim in cyc:
-                out.append(Op('claim:pingpong', f'[{where}] ' + name.format('claim'), root, '$', lambda: [], claim))
+                o = Op('claim:pingpong', f'[{where}] ' + name.format('claim'), root, '$', lambda: [], claim)
+                o.round_robin = (rnd, name)       # from round 1 on every owner has let go: a claim must succeed as in the round before
+                if name in targets:
+                    o.manual_claim = targets[name]
+                out.append(o)
                 out.append(Op('claim:pingpong', f'[{where}] ' + name.format('unclaim'), root, '$', lambda: [], unclaim))
         return out
     while len(out) < nsteps:
         name, claim, unclaim = r.choice(owners)
-        out.append(Op('claim:pingpong', f'[{where}] ' + name.format('claim'), root, '$', lambda: [], claim))
+        o = Op('claim:pingpong', f'[{where}] ' + name.format('claim'), root, '$', lambda: [], claim)
+        if name in targets:
+            o.manual_claim = targets[name]
+        out.append(o)
         if r.random() < 0.85:
             out.append(Op('claim:pingpong', f'[{where}] ' + name.format('unclaim'), root, '$', lambda: [], unclaim))
     return out
